@@ -1,6 +1,7 @@
 package main
 
 import (
+	"go/ast"
 	"fmt"
 	"go/types"
 	"sort"
@@ -105,6 +106,22 @@ func checkSettingsImmutable(w *World, r *Report, rule string, names ...string) {
 				}
 				construct := fmt.Sprintf("%s.%s written in %s", st.name, cw.Field, key)
 				want, allowed := st.fields[key][cw.Field]
+				if !allowed {
+					// a stage function split off the loader: an unexported function of the loader's package that is
+					// called from nowhere but the loader (or other such stages)
+					for lk, fields := range st.fields {
+						if wv, ok := fields[cw.Field]; ok && inLoaderFamily(w, lk, cw.Fn) {
+							want, allowed = wv, true
+							if wv != "" {
+								// the source may now be a parameter of the stage instead of the loader's local
+								want = ""
+								if !strings.HasPrefix(cw.Val, strings.SplitN(wv, "@", 2)[0]+"@") {
+									want = wv
+								}
+							}
+						}
+					}
+				}
 				switch {
 				case !allowed:
 					r.Fail(rule, construct, w.InstrPos(cw.Instr), "the setting is overwritten outside its loader: "+st.name+"."+cw.Field+" <- "+cw.Val, "")
@@ -263,4 +280,42 @@ func wholeStoreOrdinal(st *ssa.Store) int {
 		}
 	}
 	return n
+}
+
+var loaderFamilies = map[string]map[*ssa.Function]bool{}
+
+// inLoaderFamily: fn is the loader "pkgrel.Func" itself or an unexported function of its package whose every call
+// site lies in the loader or in another member of the family (a stage split off the loader).
+func inLoaderFamily(w *World, loaderKey string, fn *ssa.Function) bool {
+	fam, ok := loaderFamilies[loaderKey+fmt.Sprintf("%p", w)]
+	if !ok {
+		fam = map[*ssa.Function]bool{}
+		i := strings.LastIndex(loaderKey, ".")
+		if i > 0 {
+			if l := w.Func(loaderKey[:i], loaderKey[i+1:]); l != nil {
+				fam[l] = true
+				for changed := true; changed; {
+					changed = false
+					for _, f := range w.RepoFuncs() {
+						if fam[f] || f.Pkg != l.Pkg || ast.IsExported(f.Name()) || f.Parent() != nil {
+							continue
+						}
+						cs := w.callersOf(f)
+						all := len(cs) > 0
+						for _, c := range cs {
+							if !fam[c] {
+								all = false
+							}
+						}
+						if all {
+							fam[f] = true
+							changed = true
+						}
+					}
+				}
+			}
+		}
+		loaderFamilies[loaderKey+fmt.Sprintf("%p", w)] = fam
+	}
+	return fam[fn]
 }
